@@ -35,4 +35,5 @@ EXTRAS = [
     lambda rep, fb, tier: __import__("vf.rules.lints3", fromlist=["x"]).rule_option_shortcut(rep, fb),
     lambda rep, fb, tier: __import__("vf.rules.pyrules3", fromlist=["x"]).rule_py_recursion_keywords(rep),
     lambda rep, fb, tier: __import__("vf.rules.lints3", fromlist=["x"]).rule_union_length_is_tags(rep, fb),
+    lambda rep, fb, tier: __import__("vf.rules.pyrules5", fromlist=["x"]).rule_py_last_wins(rep),
 ]
